@@ -33,10 +33,12 @@ def run(ctx):
         P.run_model(ctx, "s2n_221_own2", [2, 2, 1], 2, 7,
                     scenarios(["notar", "skip"], ["nf"], parent_votes=True), INVS, P.rel_c06)
     else:
-        for stakes, own in (([2, 2, 1], 0), ([2, 2, 1], 2), ([3, 1, 1], 1), ([1, 1, 1], 0)):
+        for stakes, own, kinds in (([2, 2, 1], 0, ["notar", "nf", "skip", "sf", "final"]),
+                                   ([2, 2, 1], 2, ["notar", "nf", "skip", "sf"]),
+                                   ([3, 1, 1], 1, ["notar", "skip", "sf"]),
+                                   ([1, 1, 1], 0, ["notar", "skip", "sf"])):
             P.run_model(ctx, f"s2n_{''.join(map(str, stakes))}_own{own}", stakes, own, 7,
-                        scenarios(["notar", "nf", "skip", "sf", "final"], ["notar", "nf", "ff"],
-                                  parent_votes=True, sibling=["notar", "nf", "ff"]),
+                        scenarios(kinds, ["notar", "nf", "ff"], parent_votes=True, sibling=["notar", "nf", "ff"]),
                         INVS, P.rel_c06, sample=1200000, timeout=3500, witnesses=["W_S2N", "W_S2S"])
         P.run_model(ctx, "s2n_11111_own0", [1, 1, 1, 1, 1], 0, 7,
                     scenarios(["notar", "skip"], ["notar"]), INVS, P.rel_c06, sample=800000, timeout=3500)
